@@ -413,10 +413,10 @@ func main() {
 		return
 	}
 	r := lib.NewRng(a.Seed)
-	nScen, nDrift := 2600, 3000
+	nScen, nDrift, maxRounds := 8000, 6000, 20
 	if a.Tier == "thorough" {
-		nScen, nDrift = 40000, 30000
+		nScen, nDrift, maxRounds = 160000, 100000, 50
 	}
-	generate(r, nScen, nDrift)
+	generate(r, nScen, nDrift, maxRounds)
 	fmt.Fprintf(os.Stderr, "c01: %d cases\n", w.N())
 }
